@@ -75,6 +75,12 @@ CHECKS = {
             "and that mode must equal the single-cluster fit of exactly the training points with that label; the real clusterer is run on a lattice of weighted blob pools (trimming removes whole blobs) over the systematic-offset partition; "
             "real runs over cluster_every in {1,2,3,4,5,7} x warm-up length x kernel x normalize x cap (equal and dying modes) are monitored at every kernel entry and resumed from every checkpoint into a fresh sampler.",
             "Trusted: C19 (a Student-t location lies in the bounding box of its data) for the pipeline-level 'same cluster' oracle. Pools and targets outside the lattice are not explored.", "DESIGN.md §4 C14"),
+    "C15": ("exploration",
+            "exhaustive enumeration of a deterministic data lattice x weight lattice x model options on the real mixture / hierarchical models under an owned tape, with invariants and a replication-equivalence differential oracle",
+            "Every (dimension, size, layout incl. degenerate and duplicated points, separation, affine placement) x weight pattern (uniform, integer, dominant, geometric, zeros on a subset / a whole blob) x covariance type {full,diag} x components {1,2,3} "
+            "is fitted by the real GaussianMixture: weights a probability vector, covariances symmetric PSD, non-negligible components inside the data bounding box, labels in range, finite BIC, integer weights equivalent to replicated points; "
+            "the hierarchical model (normalize on/off, 3 threshold modifiers, both ways core.py sets the cap) must label every training point once in [0,K), respect the cap and the minimum child size, and predict labels / row-stochastic probabilities for training and arbitrary query points.",
+            "Trusted: scipy quantiles for the data grids. Known findings (un-normalised data with spread ~1e3) are listed in known_findings.json and printed as KNOWN-FINDING.", "DESIGN.md §4 C15"),
     "C16": ("exploration",
             "exhaustive enumeration of a structured-double lattice x all strict/periodic/reflective coordinate assignments against an exact rational fold",
             "Every value of a ~1.3k-point lattice of doubles (signed zeros, subnormals, every binade edge 2^-60..2^70 and up to 2^1023 with ulp neighbours, integers/halves/quarters with ulp neighbours, 2^53 and 2^63 edges, 1e300) "
